@@ -461,10 +461,20 @@ def ev(cx, n, env, pc):
         if isinstance(s, ast.Constant):
             return index_value(cx, v, s.value, pc)
         if isinstance(s, ast.Slice) and isinstance(v, tuple):
-            lo = s.lower.value if isinstance(s.lower, ast.Constant) else None
-            hi = s.upper.value if isinstance(s.upper, ast.Constant) else None
-            if (s.lower is None or isinstance(s.lower, ast.Constant)) and (s.upper is None or isinstance(s.upper, ast.Constant)) and s.step is None:
-                return v[lo:hi]
+            def bound(b):
+                "constant slice bound: None, an int constant or a negated int constant; anything else is not encodable"
+                if b is None:
+                    return None
+                if isinstance(b, ast.Constant) and type(b.value) is int:
+                    return b.value
+                if isinstance(b, ast.UnaryOp) and isinstance(b.op, ast.USub) and isinstance(b.operand, ast.Constant) and type(b.operand.value) is int:
+                    return -b.operand.value
+                raise EncodingError("slice with a non-constant bound")
+            lo, hi, st = bound(s.lower), bound(s.upper), bound(s.step)
+            if st == 0:
+                cx.err(pc)
+                return Poison
+            return v[lo:hi:st]
         if isinstance(v, tuple) and len(v) > 0:
             # variable index into a positional record: all elements must merge
             i = as_int(ev(cx, s, env, pc))
